@@ -807,6 +807,26 @@ CLAIMS["C04"]["note"] += (
     "the quick tier, each through parse, compile, check_package, build_package, link_cores and the three queries; gen-ill's wrongly typed hole now also "
     "takes any other primitive type (float for int, int64 for int32, ...).")
 
+CLAIMS["C18"]["text"] += (
+    " Round 11 follow-up: the attribute's TEXT is inside the model — attrText / stripComments mirror ast/src/lower.rs::lower_attributes (the text of "
+    "the attribute's syntax node, which holds every trivia token up to the next token of the file, without its comment tokens; string literals are "
+    "respected) — with attr_comment_invisible / attr_comment_at_end / attr_plain / derive_attrs_comment (a // comment after string-free code of the "
+    "node, in particular after the closing bracket or between two targets, changes neither the text derive.rs reads nor the traits derived) and "
+    "derive_attrs_union_src; tied by the AST comparison of derive::expand's output (expandImplsSrc of the node texts as written) and searched with a "
+    "layout family in the generator (13 layouts after an attribute, two multi-line spellings with comments between the targets) and in the probe "
+    "catalogue (8 attribute lists x 12 layouts + 10 attributes with a comment between their own tokens, judged by a comment-aware reading written "
+    "independently of the compiler's lexer). Hygiene against the package: GMethod.hygienic tops (no call of the generated body is taken by a "
+    "top-level function of the package the type is defined in; name resolution prefers the package's definitions to the builtins) with "
+    "derive_hygienic_partial (holds when no function of the package is spelled like a helper of the regenerated tables; the examples after it are the "
+    "capture) — tied and searched by a catalogue of two-package projects: for every (derived method, helper, leaf type) READ OFF the impl blocks the "
+    "real derive::expand appends (24 pairs), a library package defining the derived type next to a function spelled like the helper (same / other "
+    "signature) and two controls (no such function; a longer name), expected text from the declarative writers.")
+CLAIMS["C18"]["note"] += (
+    " Round 11 follow-up: one more defect fixed in the repository copy (a comment after or inside a derive attribute silently disabled the derive, a "
+    "commented-out target was derived: 60989c4); one more known finding (a function of a LIBRARY package spelled like a runtime helper takes the calls "
+    "of the derived code: not JSON / generated code rejected in the typer). stripComments covers the token kinds an attribute is made of in the "
+    "generated and catalogue inputs (punctuation, identifiers, \"...\" literals, whitespace, // comments), not multi-line strings or char literals.")
+
 def main():
     checks = []
     for pid in ALL:
